@@ -72,6 +72,13 @@ def build(work, race=False):
     except OSError:
         pass
     cmd = [GO, "test", "-c", "-tags", "verif", "-o", out]
+    if REPO != "/repo":
+        # background runs work on a snapshot of the repository (VERIF_REPO)
+        mod = open(os.path.join(VERIF, "sim", "go.mod")).read().replace("=> /repo", "=> " + REPO)
+        modfile = os.path.join(work.dir, "go.mod")
+        open(modfile, "w").write(mod)
+        shutil.copyfile(os.path.join(VERIF, "sim", "go.sum"), os.path.join(work.dir, "go.sum"))
+        cmd += ["-modfile", modfile]
     if race:
         cmd.append("-race")
     cmd.append(".")
